@@ -239,6 +239,9 @@ def count_theorems(vfile):
     text = strip_coq_comments(open(vfile).read())
     names = re.findall(r"^\s*(?:Theorem|Lemma|Corollary)\s+([\w']+)", text, re.M)
     printed = re.findall(r"^\s*Print\s+Assumptions\s+([\w'.]+)\s*\.", text, re.M)
+    # an Example whose assumptions are printed is an obligation too (obligations = discharged answers)
+    examples = re.findall(r"^\s*(?:Example|Fact|Remark|Proposition)\s+([\w']+)", text, re.M)
+    names = names + [e for e in examples if e in printed and e not in names]
     return names, printed
 
 
